@@ -14,7 +14,7 @@ RULE = ('Hypothesis: initial datastore + 1..3 connections each with 1..4 request
         '(sync handlers run as threads in lock-step with the driver). Oracle: differential - byte-identical per-connection '
         'response streams and identical final table dumps across front-ends - plus the reference model applied in completion '
         'order predicts every data-access response byte-for-byte (so identically wrong copies do not pass). Non-trivial: >=2 '
-        'connections with interleaved chunks, or a write followed by a read on another connection; distinct by SHA-1.')
+        'connections with interleaved chunks, or a write followed by a read on another connection; distinct by SHA-1. Requests carry a generated MBAP protocol id; in single mode every kind of unit id (0, 127, 128, 247..255) is addressed; datagrams may carry two requests.')
 ASSUMPTIONS = ['requests whose answer depends on process-wide diagnostic counters (FC 7, 8, 11, 12) are not generated (the Twisted copy counts bus messages, the property restricts itself to data access and identification)',
                'broadcast is not generated (Twisted has no broadcast option)',
                'binary scripts containing delimiter bytes in any frame are excluded and counted']
